@@ -347,7 +347,8 @@ def check_unary(project: Project, rep):
 def check_pad_snap(project: Project, rep):
     uv = project.function("persim.landscapes.auxiliary.union_vals")
     rep.analysed(uv)
-    pads = [n for n in ast.walk(uv.node) if isinstance(n, ast.Call) and project.resolve(uv.module, n.func, local_names(uv.node)) == "numpy.pad"]
+    uvn = fn_view(project, uv)
+    pads = [n for n in ast.walk(uvn) if isinstance(n, ast.Call) and project.resolve(uv.module, n.func, local_names(uvn)) == "numpy.pad"]
     if len(pads) < 2:
         rep.unmodelled("AR-PAD", uv, uv.node, "padding calls not found")
     for pnode in pads:
@@ -369,17 +370,17 @@ def check_pad_snap(project: Project, rep):
             rep.refuted("AR-PAD", uv, pnode, f"`{target}` is padded with pad_width={ast.unparse(pw[0]) if pw else '?'}: padding must "
                                              f"be ((0, k), (0, 0)) — new zero depths after the existing ones, grid axis untouched")
     # the branch pads the operand with fewer rows
-    for n in ast.walk(uv.node):
+    for n in ast.walk(uvn):
         if isinstance(n, ast.If) and isinstance(n.test, ast.Compare) and isinstance(n.test.left, ast.Name):
             pass
-    diff = [n for n in ast.walk(uv.node) if isinstance(n, ast.Assign) and isinstance(n.value, ast.BinOp) and isinstance(n.value.op, ast.Sub)
+    diff = [n for n in ast.walk(uvn) if isinstance(n, ast.Assign) and isinstance(n.value, ast.BinOp) and isinstance(n.value.op, ast.Sub)
             and "shape[0]" in ast.unparse(n.value)]
     if diff:
         d = diff[0]
         first = ast.unparse(d.value.left).split(".")[0]
         second = ast.unparse(d.value.right).split(".")[0]
         dn = d.targets[0].id
-        for n in ast.walk(uv.node):
+        for n in ast.walk(uvn):
             if isinstance(n, ast.If) and isinstance(n.test, ast.Compare) and isinstance(n.test.left, ast.Name) and n.test.left.id == dn:
                 op = n.test.ops[0]
                 padded = [ast.unparse(c.args[0]) for s in n.body for c in ast.walk(s) if isinstance(c, ast.Call)
@@ -395,7 +396,8 @@ def check_pad_snap(project: Project, rep):
     # union_crit_pairs: deeper operand's depth taken unchanged when the other has none
     uc = project.function("persim.landscapes.auxiliary.union_crit_pairs")
     rep.analysed(uc)
-    loops = [n for n in ast.walk(uc.node) if isinstance(n, ast.For) and "zip_longest" in ast.unparse(n.iter)]
+    ucn = fn_view(project, uc)
+    loops = [n for n in ast.walk(ucn) if isinstance(n, ast.For) and "zip_longest" in ast.unparse(n.iter)]
     if loops:
         lp = loops[0]
         if isinstance(lp.target, ast.Tuple) and len(lp.target.elts) == 2:
